@@ -896,9 +896,73 @@ def generate():
     top = [s for s in stmts(body_of(ft)) if s.get("kind") == "IfStmt"]
     if len(top) != 2 or not mentions(if_cond(top[0]), "t_lastSecond") or callee_name(strip(if_cond(top[1]))) != "valid":
         raise ExtractError("formatTime: unexpected structure")
-    out.append(prop_def("cacheMiss", [("seconds", "Int"), ("lastSecond", "Int")],
-                        unparen(Tr({"seconds": "seconds", "t_lastSecond": "lastSecond"}, int_mode=True).expr(if_cond(top[0]))),
-                        "`formatTime`: the cached text is rebuilt iff"))
+    # locals in front of the test that hold the zone generation: `int zoneGen = g_logTimeZoneGen;`
+    miss_sym = {"seconds": "seconds", "t_lastSecond": "lastSecond", "t_lastZoneGen": "lastZoneGen"}
+    gen_locals = set()
+    for st_ in stmts(body_of(ft)):
+        if st_ is top[0]:
+            break
+        if st_.get("kind") != "DeclStmt":
+            continue
+        for v in kids(st_):
+            if v.get("kind") == "VarDecl" and kids(v) and mentions(v, "g_logTimeZoneGen"):
+                ok_kinds = ("ImplicitCastExpr", "CXXMemberCallExpr", "MemberExpr", "DeclRefExpr")
+                if any(x.get("kind") not in ok_kinds for x in walk(kids(v)[-1])) or \
+                        any(x.get("kind") == "MemberExpr" and x.get("name") not in ("operator int", "load") for x in walk(kids(v)[-1])):
+                    raise ExtractError("formatTime: %s is not a plain read of g_logTimeZoneGen" % v.get("name"))
+                miss_sym[v["name"]] = "zoneGen"
+                gen_locals.add(v["name"])
+    out.append(prop_def("cacheMiss", [("seconds", "Int"), ("lastSecond", "Int"), ("zoneGen", "Int"), ("lastZoneGen", "Int")],
+                        unparen(Tr(miss_sym, int_mode=True).expr(if_cond(top[0]))),
+                        "`formatTime`: the cached text is rebuilt iff (`zoneGen`: the value of `g_logTimeZoneGen` read in "
+                        "front of the test, `lastZoneGen`: the thread's `t_lastZoneGen`)"))
+    then0 = [unwrap_stmt(x) for x in stmts(kids(top[0])[1])]
+    sec_store = [assigns(x, "t_lastSecond") for x in then0 if assigns(x, "t_lastSecond") is not None]
+    if len(sec_store) != 1 or ref_name(sec_store[0]) != "seconds":
+        raise ExtractError("formatTime: the rebuilt branch does not store t_lastSecond = seconds")
+    gen_store = [assigns(x, "t_lastZoneGen") for x in then0 if assigns(x, "t_lastZoneGen") is not None]
+    if len(gen_store) > 1 or (gen_store and ref_name(gen_store[0]) not in gen_locals):
+        raise ExtractError("formatTime: t_lastZoneGen is assigned something other than the generation read in front of the test")
+    if any(mentions(x, "t_lastZoneGen") or mentions(x, "g_logTimeZoneGen") for x in stmts(body_of(ft))
+           if x is not top[0] and not (x.get("kind") == "DeclStmt" and any(v.get("name") in gen_locals for v in kids(x)))) \
+            or any(mentions(x, "t_lastZoneGen") for x in then0 if assigns(x, "t_lastZoneGen") is None):
+        raise ExtractError("formatTime: the zone generation is used in a statement of unknown shape")
+    out.append("/-- `formatTime`: the rebuilt branch stores the generation it compared (`t_lastZoneGen = zoneGen;`) -/\n"
+               "def cacheStoresGen : Bool := %s\n" % ("true" if gen_store else "false"))
+    # Logger::setTimeZone: the zone, and the generation that invalidates every thread's cached second
+    stz = the_function(lg, "setTimeZone")
+    bumped = 0
+    for x in [unwrap_stmt(y) for y in stmts(body_of(stz))]:
+        if x.get("kind") == "CXXOperatorCallExpr" and callee_name(x) == "operator=" and ref_name(kids(x)[1]) == "g_logTimeZone" \
+                and ref_name(kids(x)[2]) == "tz":
+            continue
+        if x.get("kind") == "CXXOperatorCallExpr" and callee_name(x) == "operator++" and mentions(x, "g_logTimeZoneGen") \
+                and len([y for y in walk(x) if y.get("kind") == "DeclRefExpr"]) == 2:
+            bumped += 1
+            continue
+        raise ExtractError("Logger::setTimeZone: unexpected statement %s" % x.get("kind"))
+    if bumped > 1:
+        raise ExtractError("Logger::setTimeZone: the generation is incremented more than once")
+    out.append("/-- `Logger::setTimeZone` increments `g_logTimeZoneGen` -/\ndef zoneGenBumped : Bool := %s\n"
+               % ("true" if bumped else "false"))
+    inits = {}
+    for nm in ("g_logTimeZoneGen", "t_lastZoneGen"):
+        vs = [n for d in lg for n in walk(d) if n.get("kind") == "VarDecl" and n.get("name") == nm]
+        if len(vs) > 1:
+            raise ExtractError("%s: more than one definition" % nm)
+        val = 0
+        if vs and kids(vs[0]):
+            lit = [x for x in walk(vs[0]) if x.get("kind") == "IntegerLiteral"]
+            if len(lit) != 1:
+                raise ExtractError("%s: initialiser is not an integer literal" % nm)
+            val = int(lit[0]["value"])
+        if nm == "t_lastZoneGen" and vs and vs[0].get("tls") is None:
+            raise ExtractError("t_lastZoneGen is not thread-local")
+        inits[nm] = val
+    out.append("/-- initial value of `g_logTimeZoneGen` (0 when the variable does not exist) -/\ndef zoneGenInit : Int := %d\n"
+               % inits["g_logTimeZoneGen"])
+    out.append("/-- initial value of `__thread t_lastZoneGen` in every new thread -/\ndef lastZoneGenInit : Int := %d\n"
+               % inits["t_lastZoneGen"])
     inner = [s for s in stmts(kids(top[0])[1])]
     zi = [s for s in inner if s.get("kind") == "IfStmt"]
     if len(zi) != 1 or callee_name(strip(if_cond(zi[0]))) != "valid" or not mentions(kids(zi[0])[1], "toLocalTime") \
